@@ -61,6 +61,16 @@ def gen_hier(rng: random.Random, ndefs=3, max_children=3, max_pins=3, leaf_p=0.5
         rng.shuffle(free)
         kk = len(free) if rng.random() < 0.4 else rng.randint(1 if free else 0, len(free))
         d["expo"] = [[p[0], p[1], f"x{i}"] for i, p in enumerate(free[:kk])]
+        if free and rng.random() < 0.3:
+            # raise_pins style: some pins named by hand, ALL the other free pins raised under their own names
+            # (possible when those names are distinct; a hand-named pin may share its internal name with them)
+            nh = rng.randint(0, len(free) - 1)
+            hand, rest = free[:nh], free[nh:]
+            names = [port_name(desc, children[c], q) for c, q in rest]
+            if len(set(names)) == len(names):
+                d["expo"] = [[p[0], p[1], f"h{k}_{i}"] for i, p in enumerate(hand)] + \
+                            [[p[0], p[1], nm] for p, nm in zip(rest, names)]
+                d["auto"] = names
     desc["top"] = ndefs - 1
     return desc
 
@@ -87,8 +97,12 @@ def build_all(desc):
             for a, b in d["conns"]:
                 lk.connect(sts[a[0]].pin[port_name(desc, d["children"][a[0]], a[1])],
                            sts[b[0]].pin[port_name(desc, d["children"][b[0]], b[1])])
+            auto = set(d.get("auto", []))
             for c, port, name in d["expo"]:
-                lk.Pin(name).put(sts[c].pin[port_name(desc, d["children"][c], port)])
+                if name not in auto:
+                    lk.Pin(name).put(sts[c].pin[port_name(desc, d["children"][c], port)])
+            if auto:
+                lk.raise_pins()
         built[k] = (S, sts)
     return built
 
